@@ -639,9 +639,9 @@ Proof.
 Qed.
 
 Lemma nndvi_epoch_obs (s : st NNDVI) x :
-  epoch (update s x) = if is_drift (o_ds (observe (update s x))) then in_test x else epoch s.
+  epoch (update s x) = if is_drift (ds (update s x)) then in_test x else epoch s.
 Proof.
-  destruct (nndvi_update s x) as (H & H2 & _). simpl. rewrite H, H2.
+  destruct (nndvi_update s x) as (H & H2 & _). rewrite H, H2.
   destruct (nndvi_drifts (epoch s) x); [reflexivity|]. destruct (ds s); reflexivity.
 Qed.
 
@@ -649,7 +649,8 @@ Lemma nndvi_ref_by_trace : forall xs (s : st NNDVI),
   epoch (run s xs) = ref_by_trace (epoch s) xs (trace s xs).
 Proof.
   induction xs as [|x xs IH]; intros s; [reflexivity|].
-  unfold run in *. simpl. rewrite IH. rewrite <- nndvi_epoch_obs. reflexivity.
+  unfold run in *. cbn [fold_left trace ref_by_trace observe o_ds]. rewrite IH.
+  rewrite <- nndvi_epoch_obs. reflexivity.
 Qed.
 
 (** reachable states only ever show None or drift *)
@@ -706,7 +707,8 @@ Proof. split; [apply knn_ok_sound|apply knn_ok_complete]. Qed.
 (** self-inclusion is forced by the distance condition: in a duplicate-free set of points of one
     dimension a point is the only one at distance 0 from itself *)
 Lemma sqdist_nonneg : forall a b, 0 <= sqdist a b.
-Proof. induction a as [|x a IH]; intros [|y b]; simpl; try lia. specialize (IH b). nia. Qed.
+Proof. induction a as [|x a IH]; intros [|y b]; simpl; try lia.
+  specialize (IH b). pose proof (Z.square_nonneg (x - y)). lia. Qed.
 
 Lemma sqdist_refl a : sqdist a a = 0.
 Proof. induction a as [|x a IH]; simpl; [reflexivity|]. rewrite IH. lia. Qed.
@@ -714,5 +716,23 @@ Proof. induction a as [|x a IH]; simpl; [reflexivity|]. rewrite IH. lia. Qed.
 Lemma sqdist_zero : forall a b, length a = length b -> sqdist a b = 0 -> a = b.
 Proof.
   induction a as [|x a IH]; intros [|y b] HL H; simpl in *; try discriminate; [reflexivity|].
-  pose proof (sqdist_nonneg a b). assert (x = y) by nia. subst. f_equal. apply IH; [lia|nia].
+  pose proof (sqdist_nonneg a b). pose proof (Z.square_nonneg (x - y)).
+  assert ((x - y) * (x - y) = 0) as E by lia. apply Z.mul_eq_0 in E.
+  assert (x = y) by lia. subst. f_equal. apply IH; lia.
+Qed.
+
+Lemma knn_self_forced (D : list point) (i : nat) (row : list Z) :
+  NoDup D -> (forall p q, In p D -> In q D -> length p = length q) -> (i < length D)%nat ->
+  (forall j, nth j row 0 = 0 \/ nth j row 0 = 1) ->
+  (exists j, (j < length D)%nat /\ nth j row 0 = 1) ->
+  (forall j l, (j < length D)%nat -> (l < length D)%nat -> nth j row 0 = 1 -> nth l row 0 = 0 ->
+     sqdist (nth i D []) (nth j D []) <= sqdist (nth i D []) (nth l D [])) ->
+  nth i row 0 = 1.
+Proof.
+  intros Hnd Hdim Hi H01 (j & Hj & Ej) Hord. destruct (H01 i) as [E0|E1]; [|exact E1]. exfalso.
+  pose proof (Hord j i Hj Hi Ej E0) as H. rewrite sqdist_refl in H.
+  pose proof (sqdist_nonneg (nth i D []) (nth j D [])) as H'.
+  assert (nth i D [] = nth j D []) as E.
+  { apply sqdist_zero; [apply Hdim; apply nth_In; assumption|lia]. }
+  rewrite NoDup_nth in Hnd. pose proof (Hnd i j Hi Hj E). subst. lia.
 Qed.
